@@ -533,6 +533,41 @@ func extractC02() *lean {
 	l.def("storeKeyPrefixes", "List String", leanStrList(storeKeys), storeKeys)
 	l.def("storeKeyPrefixValues", "List String", leanStrList(storeKeyValues), storeKeyValues)
 
+	// which members of the request object each handler reads (a handler that starts to honour another form parameter flips this)
+	reads := func(f *ast.File, fn string) []string {
+		fd := funcDecl(f, fn)
+		if fd == nil {
+			return []string{"MISSING:" + fn}
+		}
+		seen := map[string]bool{}
+		ast.Inspect(fd.Body, func(n ast.Node) bool {
+			if sel, ok := n.(*ast.SelectorExpr); ok {
+				str := exprString(sel)
+				if strings.HasPrefix(str, "request.") {
+					seen[str] = true
+					return false // the longest chain only
+				}
+			}
+			return true
+		})
+		return sortedKeys(seen)
+	}
+	for _, fc := range []struct {
+		name string
+		f    *ast.File
+		fn   string
+	}{
+		{"readsCodeToken", o4vp, "handleAccessTokenRequest"},
+		{"readsHandleTokenRequest", api, "HandleTokenRequest"},
+		{"readsAuthorizeResponse", o4vp, "handleAuthorizeResponseSubmission"},
+		{"readsAuthorizeResponseDispatch", o4vp, "HandleAuthorizeResponse"},
+		{"readsIntrospectPlain", api, "IntrospectAccessToken"},
+		{"readsIntrospectExtended", api, "IntrospectAccessTokenExtended"},
+	} {
+		c := reads(fc.f, fc.fn)
+		l.def(fc.name, "List String", leanStrList(c), c)
+	}
+
 	// call chains, in source order
 	l.chain("chainHandleTokenRequest", api, "HandleTokenRequest")
 	l.chain("chainS2S", s2s, "handleS2SAccessTokenRequest")
